@@ -11,6 +11,7 @@ import random
 import sys
 
 import anyio
+from guard import guarded_run  # noqa: E402
 import sniffio
 from asphalt.core import (
     Component,
@@ -324,7 +325,7 @@ def main():
     res = []
     for case in payload["cases"]:
         try:
-            res.append(anyio.run(run_case, case, backend=case["backend"]))
+            res.append(guarded_run(run_case, case, backend=case["backend"]))
         except BaseException:  # noqa
             import traceback
             res.append({"backend": case["backend"], "seed": case.get("seed"), "steps": [],
